@@ -175,6 +175,10 @@ def probe_backend_names(g, case, findings, n=2):
             st, o2 = g.request(op, d, size=4096, offset=0, limit=10, ans=mk_ans(dir=[(y, k, e)]))
             if o2['status'] == 'ok' and (len(o2['dir']) != 1 or o2['dir'][0]['ino'] != x):
                 findings.append(mkf(case, '%s gives name n%d inode %s, lookup gave %#x' % (op, k, [hex(q['ino']) for q in o2['dir']], x), kind='consistency', op=op))
+        # a backend whose dirent.ino differs from entry.inode: readdir follows the dirent, readdirplus the entry
+        e2 = {'ino': y + 1, 'stino': y + 1, 'uid': 0, 'gid': 0, 'tag': 4}
+        for op in ('readdir', 'readdirplus'):
+            g.request(op, d, size=4096, offset=0, limit=10, ans=mk_ans(dir=[(y + 7, k, e2), (y + 9, k + 1, e)]))
         st, o3 = g.request('getattr', x, ans=mk_ans(attr={'ino': y, 'uid': 0, 'gid': 0, 'tag': 1}))
         if o3['status'] == 'ok' and o3['vals'][0] != x:
             findings.append(mkf(case, 'getattr st_ino %#x, lookup gave %#x' % (o3['vals'][0], x), kind='consistency', op='getattr'))
@@ -265,8 +269,8 @@ def gen_cases(sess, rng, tb, tier, findings):
     cases = []
     q = tier == 'quick'
     for _ in range(40 if q else 300): cases.append(sc_random(sess, rng, tb, findings, rng.randrange(10, 60)))
-    for _ in range(3 if q else 12): cases.append(sc_wrap(sess, rng, tb, findings, rng.choice([270, 300, 520])))
-    for _ in range(2 if q else 6): cases.append(sc_exhaust(sess, rng, tb, findings))
+    for _ in range(2 if q else 12): cases.append(sc_wrap(sess, rng, tb, findings, rng.choice([270, 300, 520])))
+    for _ in range(1 if q else 6): cases.append(sc_exhaust(sess, rng, tb, findings))
     for _ in range(10 if q else 60): cases.append(sc_rootmount(sess, rng, tb, findings, rng.randrange(10, 40)))
     for _ in range(10 if q else 60): cases.append(sc_overmount(sess, rng, tb, findings, rng.randrange(15, 60)))
     for c in cases: c.finish()
